@@ -345,3 +345,87 @@ Theorem C18_parse_input_is_the_code : forall pa a d,
   gen_get_parse_input pa a d = Cli.get_parse_input pa a d.
 Proof. exact gen_get_parse_input_is_model. Qed.
 Print Assumptions C18_parse_input_is_the_code.
+
+(** * Tie B: the parsers, the except ladder and the runner call of the model ARE the code.
+    Gen/GenC18.v is regenerated from the current source of pypyr/parser/*.py and pypyr/cli.py by
+    tools/py2coq_c18.py before every build; these theorems say the generated definitions equal
+    the hand-written model the theorems above are about, for all inputs. *)
+From PV Require Import GenC18 GenC18Proofs.
+
+Theorem C18_source_keyvaluepairs_is_model : forall a,
+  gen_parse_keyvaluepairs a = parse_keyvaluepairs a.
+Proof. exact gen_keyvaluepairs_is_model. Qed.
+Print Assumptions C18_source_keyvaluepairs_is_model.
+
+Theorem C18_source_keys_is_model : forall a, gen_parse_keys a = parse_keys a.
+Proof. exact gen_keys_is_model. Qed.
+Print Assumptions C18_source_keys_is_model.
+
+Theorem C18_source_list_is_model : forall a, gen_parse_list a = parse_list a.
+Proof. exact gen_list_is_model. Qed.
+Print Assumptions C18_source_list_is_model.
+
+Theorem C18_source_string_is_model : forall a, gen_parse_string a = parse_string a.
+Proof. exact gen_string_is_model. Qed.
+Print Assumptions C18_source_string_is_model.
+
+Theorem C18_source_dict_is_model : forall a, gen_parse_dict a = parse_dict a.
+Proof. exact gen_dict_is_model. Qed.
+Print Assumptions C18_source_dict_is_model.
+
+Theorem C18_source_argskwargs_is_model : forall a, gen_parse_argskwargs a = parse_argskwargs a.
+Proof. exact gen_argskwargs_is_model. Qed.
+Print Assumptions C18_source_argskwargs_is_model.
+
+(** json.loads is the translator's abstract primitive: with the model's loader the generated
+    parser is the model's, and for ANY loader it has the documented shape *)
+Theorem C18_source_json_is_model : forall a, gen_parse_json json_loads a = parse_json a.
+Proof. exact gen_json_is_model. Qed.
+Print Assumptions C18_source_json_is_model.
+
+Theorem C18_source_json_any_loader : forall loads a,
+  gen_parse_json loads a =
+  if args_falsy a then Ok None
+  else match loads (join " " (args_list a)) with
+       | Ok (VDict d) => Ok (Some d)
+       | Ok _ => Err "TypeError" json_type_error_msg
+       | Err n m => Err n m
+       | Unsup => Unsup
+       end.
+Proof. exact gen_json_any_loader. Qed.
+Print Assumptions C18_source_json_any_loader.
+
+(** the except ladder of main, applied to what the try body raised, decides return-code versus
+    escape exactly as the model does (what is printed aside) *)
+Theorem C18_source_main_ladder_is_model : forall log e,
+  wf_end e = true ->
+  gen_main_ladder run_end raised_isinstance (end_raised e) = ladder_of (main_of_end log e).
+Proof. exact gen_main_ladder_is_model. Qed.
+Print Assumptions C18_source_main_ladder_is_model.
+
+Theorem C18_source_exit_status : forall log e,
+  wf_end e = true ->
+  match gen_main_ladder run_end raised_isinstance (end_raised e) with
+  | inl None => process_status (main_of_end log e) = 0%Z
+  | inl (Some c) => process_status (main_of_end log e) = (c mod 256)%Z
+  | inr e' => main_of_end log e = Propagated e'
+  end.
+Proof. exact gen_main_ladder_status. Qed.
+Print Assumptions C18_source_exit_status.
+
+(** the keyword arguments main passes to pypyr.pipelinerunner.run *)
+Theorem C18_source_runner_call_is_model : forall cwd a, gen_call_of cwd a = call_of cwd a.
+Proof. exact gen_call_of_is_model. Qed.
+Print Assumptions C18_source_runner_call_is_model.
+
+Example C18_source_nonvacuous :
+  gen_parse_argskwargs (Some ["p1"; "k=v"; "argList=z"; "p 2"])
+  = Some [(VStr "k", VStr "v"); (VStr "argList", VList [VStr "p1"; VStr "p 2"])]
+  /\ gen_main_ladder run_end raised_isinstance (end_raised (RaisedException "ValueError" "x"))
+     = inl (Some 255%Z)
+  /\ gen_main_ladder run_end raised_isinstance (end_raised RaisedKeyboardInterrupt) = inl (Some 130%Z)
+  /\ gen_main_ladder run_end raised_isinstance (end_raised (RaisedSystemExit (Some 0%Z)))
+     = inr (RaisedSystemExit (Some 0%Z))
+  /\ gen_main_ladder run_end raised_isinstance (end_raised Stopped) = inl None
+  /\ wf_end (RaisedOtherBase "GeneratorExit" "") = true.
+Proof. vm_compute. repeat split. Qed.
